@@ -58,4 +58,54 @@ theorem C11_absent_prints_nothing (st : St) :
   · simp [printVal, bind, StateT.bind, getHeap, get, getThe, MonadStateOf.get, StateT.get, pure, Except.pure, Except.bind,
       StateT.pure]
 
+/-! ## whole paths: once data is absent, every further step is absent, and nothing is printed -/
+
+/-- a path of member accesses `recv.n1.n2. ... .nk` -/
+def pathOf (recv : TExpr) : List String → TExpr
+  | [] => recv
+  | n :: rest => pathOf (.field recv n []) rest
+
+/-- **C11 (absence propagates along any path).** If some prefix of a path evaluates to Nil (a nil pointer, a missing key, an
+out-of-range index), then for EVERY continuation of the path the whole path evaluates to Nil: no error, whatever the names. -/
+theorem C11_absent_propagates (names : List String) : ∀ (fuel : Nat) (recv : TExpr) (st st' : St),
+    evalExpr (fuel + 1) recv st = .ok (.nil, st') →
+    evalExpr (fuel + 1 + names.length) (pathOf recv names) st = .ok (.nil, st') := by
+  induction names with
+  | nil => intro fuel recv st st' h; simpa [pathOf] using h
+  | cons n rest ih =>
+    intro fuel recv st st' h
+    have h1 := C11_member_of_nil fuel recv n st st' h
+    have := ih (fuel + 1) (.field recv n []) st st' h1
+    simp only [pathOf, List.length_cons]
+    rw [show fuel + 1 + (rest.length + 1) = fuel + 1 + 1 + rest.length by omega]
+    exact this
+
+/-- the same for an undefined start (a variable that is not in the data at all) -/
+theorem C11_undefined_propagates (names : List String) : ∀ (fuel : Nat) (recv : TExpr) (st st' : St),
+    evalExpr (fuel + 1) recv st = .ok (.invalid, st') →
+    evalExpr (fuel + 1 + names.length) (pathOf recv names) st = .ok (.invalid, st') := by
+  induction names with
+  | nil => intro fuel recv st st' h; simpa [pathOf] using h
+  | cons n rest ih =>
+    intro fuel recv st st' h
+    have h1 := C11_member_of_undefined fuel recv n [] st st' h
+    have := ih (fuel + 1) (.field recv n []) st st' h1
+    simp only [pathOf, List.length_cons]
+    rw [show fuel + 1 + (rest.length + 1) = fuel + 1 + 1 + rest.length by omega]
+    exact this
+
+/-- **C11 (an absent path prints nothing and raises nothing).** The escaped buffered-code node over ANY continuation of a path
+whose prefix is absent leaves the output as it was. -/
+theorem C11_absent_path_prints_nothing (names : List String) (fuel : Nat) (recv : TExpr) (env : Env) (st : St)
+    (h : evalExpr (fuel + 1) recv st = .ok (.nil, st) ∨ evalExpr (fuel + 1) recv st = .ok (.invalid, st)) :
+    walk (fuel + 2 + names.length) env (.print (pathOf recv names) true) st = .ok ((), st) := by
+  rw [show fuel + 2 + names.length = (fuel + 1 + names.length) + 1 by omega]
+  rcases h with h | h
+  · have := C11_absent_propagates names fuel recv st st h
+    simp only [walk, bind, StateT.bind, this, Except.bind]
+    exact (C11_absent_prints_nothing st).1
+  · have := C11_undefined_propagates names fuel recv st st h
+    simp only [walk, bind, StateT.bind, this, Except.bind]
+    exact (C11_absent_prints_nothing st).2
+
 end Pug.Props.C11
